@@ -31,7 +31,7 @@
 (***************************************************************************)
 EXTENDS Integers, Sequences, FiniteSets
 
-Kinds == {"rules", "sideload", "nrps", "hmmer", "tta", "pfam2go"}
+Kinds == {"rules", "sideload", "nrps", "hmmer", "tta", "pfam2go", "t2pks"}
 NoThr == [a |-> 0, b |-> 1]
 
 (* the rule set in force: the whole file set of the strictness level, or a named subset (then independent of it) *)
